@@ -1,9 +1,10 @@
 CFG = {
     "modules": ["Parsley.Props.C02", "Parsley.Props.C16"],
-    "theorems": ["Parsley.C02.name_window_decoder_eq", "Parsley.C02.name_spelling_decodes", "Parsley.C02.name_roundtrip",
+    "theorems": ["Parsley.C02.name_window_decoder_eq", "Parsley.C02.name_spelling_decodes", "Parsley.C02.name_roundtrip", "Parsley.C02.integer_spec", "Parsley.C02.integer_roundtrip",
+                 "Parsley.C02.hexstring_spec", "Parsley.C02.litstring_roundtrip", "Parsley.C02.litLoop_balanced",
                  "Parsley.C16.parse_never_panics", "Parsley.C16.obj_loc"],
     "partial": {"(spell_parse)": "the composite theorem `parseObj (spell v ch ++ ctx) = v` for all values/choices/contexts is not proved yet; "
-                "proved so far: the name token at full strength (windowed decoder = declarative #hh decoder; every raw/#hh spelling with any hex case decodes to the name; "
+                "proved so far: integers (IntegerP on every sign/digit string/context, and every encoder spelling incl. leading zeros), hexadecimal strings (every digit/whitespace body, odd-digit padding, any context), literal strings (every balanced-modulo-escapes body, any context) and the name token at full strength (windowed decoder = declarative #hh decoder; every raw/#hh spelling with any hex case decodes to the name; "
                 "whole-token round trip in any terminator context), plus cursor=end/no-panic for every input (C16). Numbers, strings, references, arrays and "
                 "dictionaries are decided by the spelling-generator correspondence (oracle = the value that was spelled)."},
     "n": {"quick": 4000, "thorough": 150000},
